@@ -1014,11 +1014,11 @@ class Interp:
         self.block(st.body, env, mod)
         # the body may have run any number of times, or not at all: whatever it rebinds is not known after the loop
         for k_ in list(env):
-            if k_ not in before_ or env[k_] is not before_[k_]:
+            if k_ not in before_ or not _same_value(env[k_], before_[k_]):
                 env[k_] = Unk('name bound in a loop over an unmodelled iterable %s' % up(it)[:60], st)
         for o_, a0_ in objs_:
             for k_ in list(o_.attrs):
-                if k_ not in a0_ or o_.attrs[k_] is not a0_[k_]:
+                if k_ not in a0_ or not _same_value(o_.attrs[k_], a0_[k_]):
                     o_.attrs[k_] = Unk('attribute stored in a loop over an unmodelled iterable %s' % up(it)[:60], st)
         return None
 
@@ -1037,7 +1037,10 @@ class Interp:
             return [Arr(itv.dims[1:], itv.poly, None, itv.unit)]          # an unlabelled axis has one position
         if isinstance(itv, Arr) and itv.ndim >= 1 and itv.dims[0] and itv.mask is None and self.axis_len.get(itv.dims[0], 99) <= 16:
             # the configuration fixes the length of this axis: one iteration per position
-            return [Arr(itv.dims[1:], alg.index_at(itv.poly, itv.dims[0], num(k_)), None, itv.unit) for k_ in range(self.axis_len[itv.dims[0]])]
+            els_ = [Arr(itv.dims[1:], alg.index_at(itv.poly, itv.dims[0], num(k_)), None, itv.unit) for k_ in range(self.axis_len[itv.dims[0]])]
+            if itv.ndim == 1 and itv.dt == 'i' and all(x_.poly.is_const() and x_.poly.const_value().denominator == 1 for x_ in els_):
+                return [int(x_.poly.const_value()) for x_ in els_]          # whole numbers (positions from arange, a list of indices): used as such
+            return els_
         if isinstance(itv, Arr) and itv.ndim >= 1 and itv.dims[0]:
             return Arr(itv.dims[1:], itv.poly, itv.mask, itv.unit)       # generic element (label stays free)
         if isinstance(itv, _WhereIdx):
@@ -1908,6 +1911,8 @@ class Interp:
         mk = _merge_mask(a, b)
         if isinstance(mk, Unk):
             return mk
+        if isinstance(mk, Poly) and mk.is_zero() and isinstance(op, (ast.Div, ast.Pow, ast.FloorDiv, ast.Mod)) and (b.poly.is_zero() if not isinstance(op, ast.Pow) else a.poly.is_zero()):
+            return Arr(d, Poly(), mk)          # a selection that selects nothing: there is no element to divide
         if isinstance(op, ast.Add):
             return Arr(d, a.poly + b.poly, mk, a.unit if a.unit is not None else b.unit)
         if isinstance(op, ast.Sub):
@@ -3217,6 +3222,20 @@ class Interp:
                     return Unk('where', e)
                 d = bdims(bdims(c.dims, a.dims), b.dims)
                 return Arr(d, c.poly * a.poly + alg.b_not(c.poly) * b.poly, unit=a.unit)
+            if last == 'select' and len(args) in (2, 3) and isinstance(args[0], (list, tuple)) and isinstance(args[1], (list, tuple)) and not (set(kw) - {'default'}):
+                # the choice of the first condition that holds, the default (0) where none does
+                if len(args[0]) != len(args[1]):
+                    raise PyRaise('ValueError', 'list of cases must be same length as list of conditions (%s)' % up(e)[:60])
+                if not args[0]:
+                    raise PyRaise('ValueError', 'select with an empty condition list is not possible (%s)' % up(e)[:60])
+                cs_ = [self._as_arr(c_) for c_ in args[0]]
+                vs_ = [self._as_arr(v_) for v_ in args[1]]
+                r_ = self._as_arr(kw.get('default', args[2] if len(args) == 3 else 0))
+                if all(isinstance(x_, Arr) and x_.mask is None for x_ in cs_ + vs_ + [r_]) and all(_is_boolean(c_.poly) for c_ in cs_):
+                    for c_, v_ in reversed(list(zip(cs_, vs_))):
+                        r_ = Arr(bdims(bdims(c_.dims, v_.dims), r_.dims), c_.poly * v_.poly + alg.b_not(c_.poly) * r_.poly, unit=v_.unit if v_.unit is not None else r_.unit)
+                    return r_
+                return Unk('numpy.select', e)
             if last in ('greater_equal', 'less_equal', 'greater', 'less', 'equal', 'not_equal') and len(args) == 2 and not kw:
                 op_ = {'greater_equal': ast.GtE, 'less_equal': ast.LtE, 'greater': ast.Gt, 'less': ast.Lt, 'equal': ast.Eq, 'not_equal': ast.NotEq}[last]()
                 env_ = {'__module__': mod, '_a': args[0], '_b': args[1]}
@@ -4823,7 +4842,10 @@ def merge_val(a, b, cond, node):
             for c_, x_, y_ in ((cond, a, b), (alg.b_not(cond), b, a)):
                 # "the mask holds somewhere" selecting between y and y-changed-where-the-mask-holds: where it holds nowhere the two are the same
                 em_ = _exists_mask(c_)
-                if em_ is not None and em_[0] in x_.dims and _carries_factor(x_.poly - y_.poly, em_[1]):
+                if em_ is not None and set(em_[0]) <= set(x_.dims) and _carries_factor(x_.poly - y_.poly, em_[1]):
+                    return x_ if x_.unit == y_.unit else x_.with_(unit=None)
+                # "the axis has at least one position" selecting between two arrays over that axis: over an empty axis neither has any element
+                if any(l_ is not None and c_ == alg.mk_ind('<0', -alg.count(l_)) for l_ in x_.dims):
                     return x_ if x_.unit == y_.unit else x_.with_(unit=None)
             return Arr(a.dims, cond * a.poly + alg.b_not(cond) * b.poly, None, a.unit if a.unit == b.unit else None)
     if _is_pyconst(a) and _is_pyconst(b) and a == b and type(a) == type(b):
@@ -4873,6 +4895,17 @@ def merge_val(a, b, cond, node):
     return Unk('value differs between the branches of a data-dependent if', node)
 
 
+def _same_value(a, b):
+    """the very same value (merging the branches of an ``if`` rebuilds tuples around unchanged items)"""
+    if a is b:
+        return True
+    if isinstance(a, tuple) and isinstance(b, tuple) and len(a) == len(b):
+        return all(_same_value(x, y) for x, y in zip(a, b))
+    if isinstance(a, Arr) and isinstance(b, Arr):
+        return a.dims == b.dims and a.mask == b.mask and a.poly == b.poly and a.unit == b.unit
+    return _is_pyconst(a) and _is_pyconst(b) and type(a) == type(b) and a == b
+
+
 def _exists_mask(cond):
     """(label, mask polynomial) when ``cond`` says "the mask holds at some position of the axis": any(mask), sum(mask) > 0, sum(mask) != 0; else None"""
     if not isinstance(cond, Poly):
@@ -4891,7 +4924,16 @@ def _exists_mask(cond):
             continue
         a = m_[0][0]
         if a[0] == 'fn' and a[1] == 'any' and len(a) == 3 and a[2][0] == 'B':
-            return a[2][1], Poly.from_key(a[2][2])
+            labs, body = [a[2][1]], Poly.from_key(a[2][2])
+            while body.is_monomial():
+                # any over several axes: any(w -> any(m -> mask))
+                (mb_, cb_), = body.t.items()
+                if cb_ == 1 and len(mb_) == 1 and mb_[0][1] == 1 and mb_[0][0][0] == 'fn' and mb_[0][0][1] == 'any' and len(mb_[0][0]) == 3 and mb_[0][0][2][0] == 'B':
+                    labs.append(mb_[0][0][2][1])
+                    body = Poly.from_key(mb_[0][0][2][2])
+                else:
+                    break
+            return tuple(labs), body
         if a[0] == 'ind' and a[1] == '<0':
             inner = Poly.from_key(a[2])
             if inner.is_monomial():
@@ -4899,19 +4941,18 @@ def _exists_mask(cond):
                 if ci_ == -1 and len(mi_) == 1 and mi_[0][1] == 1 and mi_[0][0][0] == 'sum':
                     mk = Poly.from_key(mi_[0][0][2])
                     if alg.is_integer_valued(mk):
-                        return mi_[0][0][1], mk
+                        return (mi_[0][0][1],), mk
     return None
 
 
 def _carries_factor(p, mk):
-    """every term of ``p`` carries the (single-term, indicator) mask ``mk`` as a factor: p vanishes wherever the mask does not hold"""
-    if not mk.is_monomial():
+    """``p`` vanishes wherever the 0/1-valued mask ``mk`` does not hold: p * (1 - mk) is zero (brackets are idempotent)"""
+    if not _is_boolean(mk):
         return False
-    (m0, c0), = mk.t.items()
-    if c0 != 1 or not m0 or any(a[0] != 'ind' or e != 1 for a, e in m0):
+    try:
+        return alg.is_zero(p * (Poly.const(1) - mk))[0]
+    except Exception:
         return False
-    need = {a for a, e in m0}
-    return all(need <= {a for a, e in m} for m in p.t)
 
 
 def _is_index_alt(v):
